@@ -105,7 +105,7 @@ def run(ctx):
     ok = ok and ok_d and ok_s
     if not ok and not unlisted_violations(ctx):
         ctx.violation("model-tie", "unproven", {"broken": ctx.broken}, detail="; ".join(ctx.broken)[:500], kind="unproven", broken=ctx.broken)
-    ctx.assumptions = ["IDs restricted to int/str/tuple-of-atoms/None", "attribute dict key order is not compared (merge rule 'union' iterates a set of strings)",
+    ctx.assumptions = ["node labels generated: int (incl. negative, colliding in small hash tables) and str, mixed; edge IDs generated: int (incl. 10**30 and 10**309), str, and the tuple IDs that merge_duplicate_edges(rename='tuple') creates; None as a malformed ID. Tuple NODE labels are in the model's domain but are not generated: the list formats of add_edges_from / add_nodes_from read a leading tuple as (members, id) / (node, attrs) (DESIGN 13.6); bool / float / numpy IDs only in the C04 provenance predicate", "attribute dict key order is not compared (merge rule 'union' iterates a set of strings)",
                        "declarative effect theorems are stated on the undirected model; the directed class is covered by its operational model (C02) compared on the full snapshot; the simplicial class by the C03 model when present"]
     return finish(ctx, trusted_base=TRUSTED_COMMON)
 
